@@ -266,3 +266,89 @@ def mutate_records(rng, recs, kinds):
 MUTATION_KINDS = ["shuffle", "swap", "drop-gene", "drop", "untag", "untag-all", "dup-tag", "retype", "add-exon",
                   "add-other", "unstrand", "zero-length", "codon-start", "pseudo", "reverse-parts", "widen-cds",
                   "dup-record"]
+
+
+# ------------------------------------------------------------------------------------------------------
+# chunk windows
+
+WINDOW_KINDS = ["whole", "contain", "cut-cds", "cut-cds", "cut-exon", "cut-intron", "cut-two", "miss-gene", "random"]
+
+
+def gen_window(rng, coll, L, kind=None):
+    """a window [ws, we) of the chromosome [0, L) placed relative to the collection's genes:
+    whole = [0, L); contain = all genes inside; cut-cds / cut-exon = one edge inside a CDS / exon block of some
+    transcript (the other edge beyond the collection or inside another block); cut-intron = one edge between two
+    blocks; cut-two = both edges inside blocks; miss-gene = a gene (partly: its CDS, an exon) left outside;
+    random = anything non-empty.  Returns (ws, we, kind)"""
+    kind = kind or rng.choice(WINDOW_KINDS)
+    txs = [t for g in coll["genes"] for t in g["transcripts"]]
+    lo = min([t["exon_starts"][0] for t in txs] + [f["interval_starts"][0] for fc in coll["feature_collections"]
+                                                  for f in fc["feature_intervals"]] + [L - 1])
+    hi = max([t["exon_ends"][-1] for t in txs] + [f["interval_ends"][-1] for fc in coll["feature_collections"]
+                                                 for f in fc["feature_intervals"]] + [1])
+
+    def inside(blocks):
+        s, e = rng.choice(blocks)
+        return rng.randint(s, e - 1) if rng.random() < 0.8 else rng.choice([s, e])
+
+    def far(side):
+        return rng.randint(0, lo) if side == 0 else rng.randint(hi, L)
+
+    ws, we = 0, L
+    coding = [t for t in txs if t["cds_starts"]]
+    if kind == "contain":
+        ws, we = far(0), far(1)
+    elif kind in ("cut-cds", "cut-exon", "cut-two") and txs:
+        t = rng.choice(coding) if (kind == "cut-cds" and coding) else rng.choice(txs)
+        bl = list(zip(t["cds_starts"], t["cds_ends"])) if (kind == "cut-cds" and t["cds_starts"]) else \
+            list(zip(t["exon_starts"], t["exon_ends"]))
+        p = inside(bl)
+        if kind == "cut-two":
+            t2 = rng.choice(txs)
+            q = inside(list(zip(t2["exon_starts"], t2["exon_ends"])))
+            ws, we = min(p, q), max(p, q)
+        elif rng.random() < 0.5:
+            ws, we = p, (far(1) if rng.random() < 0.7 else rng.randint(p, L))
+        else:
+            ws, we = (far(0) if rng.random() < 0.7 else rng.randint(0, p)), p
+    elif kind == "cut-intron" and txs:
+        t = rng.choice(txs)
+        ex = list(zip(t["exon_starts"], t["exon_ends"]))
+        gaps = [(a[1], b[0]) for a, b in zip(ex, ex[1:]) if a[1] < b[0]]
+        if gaps:
+            s, e = rng.choice(gaps)
+            p = rng.randint(s, e)
+            ws, we = (p, far(1)) if rng.random() < 0.5 else (far(0), p)
+    elif kind == "miss-gene" and txs:
+        t = rng.choice(txs)
+        if rng.random() < 0.5:
+            ws = rng.randint(t["exon_starts"][0] + 1, min(L - 1, t["exon_ends"][-1] + 3))
+        else:
+            we = rng.randint(max(1, t["exon_starts"][0] - 3), t["exon_ends"][-1] - 1)
+    elif kind == "random":
+        ws = rng.randint(0, L - 1)
+        we = rng.randint(ws + 1, L)
+    ws, we = max(0, min(ws, L - 1)), min(L, we)
+    if we <= ws:
+        we = min(L, ws + 1 + rng.randint(0, 5))
+    return ws, we, kind
+
+
+def restrict_to_window(rng, coll, ws, we, p_keep_outside=0.0):
+    """the collection a chunk is normally built with: genes / feature collections that have something to write inside
+    [ws, we) — every transcript an exon base, every coding transcript a CDS base, every feature a base; the others are
+    dropped (kept with probability p_keep_outside: the writer documents EmptyLocationException for them)"""
+    def hit(starts, ends):
+        return any(max(s, ws) < min(e, we) for s, e in zip(starts, ends))
+
+    def gene_in(g):
+        return all(hit(t["exon_starts"], t["exon_ends"]) and (not t["cds_starts"] or hit(t["cds_starts"], t["cds_ends"]))
+                   for t in g["transcripts"])
+
+    def fc_in(fc):
+        return all(hit(f["interval_starts"], f["interval_ends"]) for f in fc["feature_intervals"])
+
+    out = dict(coll)
+    out["genes"] = [g for g in coll["genes"] if gene_in(g) or rng.random() < p_keep_outside]
+    out["feature_collections"] = [fc for fc in coll["feature_collections"] if fc_in(fc) or rng.random() < p_keep_outside]
+    return out
